@@ -252,6 +252,49 @@ def _start(M, c):
     return gen.mk(z, c["u"])
 
 
+_BG = {}
+
+
+def _concurrent(M, x, d, tot, via):
+    """the same operator call repeated while another thread converts unrelated values between zones (in_timezone /
+    astimezone, which touch no contracted function) with a very short interpreter switch interval: the result of an
+    addition must not depend on what other threads are in the middle of"""
+    import sys
+    import threading
+
+    P = M.pendulum
+    if "t" not in _BG:
+        ev = _BG["ev"] = threading.Event()
+        _BG["n"] = 0
+        v = P.DateTime(2020, 1, 1, 12, tzinfo=P.UTC)
+        w = P.DateTime(2021, 3, 28, 1, 30, tzinfo=P.timezone("Europe/Paris"))
+        tzs = [P.timezone("Asia/Tokyo"), P.timezone("America/New_York"), dt.timezone.utc]
+
+        def body():
+            i = 0
+            while True:
+                ev.wait()
+                v.in_timezone(tzs[i % 2])
+                w.astimezone(tzs[2])
+                i += 1
+                _BG["n"] = i
+
+        _BG["t"] = threading.Thread(target=body, daemon=True)
+        _BG["t"].start()
+    old = sys.getswitchinterval()
+    n0 = _BG["n"]
+    sys.setswitchinterval(1e-6)
+    _BG["ev"].set()
+    try:
+        for _ in range(30):
+            y = x + d if via == "op+" else d + x if via == "radd" else x - (-d)
+            judge_shift(M, "op.exact", x, y, tot, "operator-" + via + ":other-thread-converting")
+    finally:
+        _BG["ev"].clear()
+        sys.setswitchinterval(old)
+    M.count("concurrent_conversions_seen", _BG["n"] - n0)
+
+
 def run(M, c):
     import random
 
@@ -299,6 +342,8 @@ def run(M, c):
             else:
                 y = x._add_timedelta_(d)
             judge_shift(M, "op.exact", x, y, tot, "operator-" + via)
+            if c["sp"] % 16 == 0 and via != "td_add":
+                _concurrent(M, x, d, tot, via)
             back = y - d
     except (OverflowError, ValueError) as e:
         M.check("op.exact", False, f"C03/raised-{type(e).__name__}", "exception for a representable result",
